@@ -287,18 +287,37 @@ func TestC09_Headers(t *testing.T) {
 		seenDev := map[string]bool{}
 		nDev := 0
 		orders := map[common.Hash]int{}
+		entropies := map[common.Hash]*big.Int{}
+		withUncles := 0
 		hcOf := func(ctx int) *core.HeaderChain { return n.Nodes[ctx].Core.Slice().HeaderChain() }
 		// examine a generated subset of blocks in depth (all blocks for entropy/order/formulas)
 		for bi, b := range a.Blocks {
 			// order stability
-			_, o1, err1 := hcOf(sim.Zone).CalcOrder(b.Zone())
+			s0, o0, err0 := hcOf(sim.Zone).CalcOrder(b.Zone())
+			var s0v *big.Int
+			if s0 != nil {
+				s0v = new(big.Int).Set(s0)
+			}
+			// delta and total entropy are evaluated between the order calls, on a warm cache
+			d1 := new(big.Int).Set(hcOf(sim.Zone).DeltaLogEntropy(b.Zone()))
+			d2 := new(big.Int).Set(hcOf(sim.Zone).DeltaLogEntropy(b.Zone()))
+			s1, o1, err1 := hcOf(sim.Zone).CalcOrder(b.Zone())
 			hcOf(sim.Zone).VerifPurgeCaches()
-			_, o2, err2 := hcOf(sim.Zone).CalcOrder(b.Zone())
-			if err1 != nil || err2 != nil || o1 != o2 || o1 != b.Order {
-				stats.Violation(t, part, "C09/order-unstable", fmt.Sprintf("block %d: order %d/%v then %d/%v after cache purge, mined as %d", bi, o1, err1, o2, err2, b.Order), dump())
+			s2, o2, err2 := hcOf(sim.Zone).CalcOrder(b.Zone())
+			d3 := hcOf(sim.Zone).DeltaLogEntropy(b.Zone())
+			if err0 != nil || err1 != nil || err2 != nil || o0 != o1 || o1 != o2 || o1 != b.Order {
+				stats.Violation(t, part, "C09/order-unstable", fmt.Sprintf("block %d: order %d/%v, %d/%v, then %d/%v after cache purge, mined as %d", bi, o0, err0, o1, err1, o2, err2, b.Order), dump())
 				return
 			}
+			if s0v.Cmp(s1) != 0 || s0v.Cmp(s2) != 0 || d1.Cmp(d2) != 0 || d1.Cmp(d3) != 0 {
+				stats.Violation(t, part, "C09/entropy-unstable/calls", fmt.Sprintf("block %d (%d uncles): seal entropy %v, %v, %v (cold); delta entropy %v, %v, %v (cold)", bi, len(b.Zone().Uncles()), s0v, s1, s2, d1, d2, d3), dump())
+				return
+			}
+			if len(b.Zone().Uncles()) > 0 {
+				withUncles++
+			}
 			orders[b.Zone().Hash()] = o1
+			entropies[b.Zone().Hash()] = new(big.Int).Set(hcOf(sim.Zone).TotalLogEntropy(b.Zone()))
 			for ctx := b.Order; ctx < 3; ctx++ {
 				child := b.Views[ctx]
 				hc := hcOf(ctx)
@@ -308,6 +327,10 @@ func TestC09_Headers(t *testing.T) {
 				}
 				// accumulated entropy strictly increases
 				pe, ce := hc.TotalLogEntropy(parent), hc.TotalLogEntropy(child)
+				if pe2, ce2 := hc.TotalLogEntropy(parent), hc.TotalLogEntropy(child); pe2.Cmp(pe) != 0 || ce2.Cmp(ce) != 0 {
+					stats.Violation(t, part, fmt.Sprintf("C09/entropy-unstable/total/ctx%d", ctx), fmt.Sprintf("block %d view %d: accumulated entropy of parent %v then %v, of child %v then %v", bi, ctx, pe, pe2, ce, ce2), dump())
+					return
+				}
 				if ce.Cmp(pe) <= 0 {
 					stats.Violation(t, part, fmt.Sprintf("C09/entropy-not-increasing/ctx%d", ctx), fmt.Sprintf("block %d view %d: entropy(child)=%v <= entropy(parent)=%v", bi, ctx, ce, pe), dump())
 					return
@@ -317,8 +340,11 @@ func TestC09_Headers(t *testing.T) {
 					return
 				}
 				now := int64(child.Time())
+				// the node verified this header when it accepted the block: with the same clock bound the
+				// verdict must repeat
 				if err := hc.VerifVerifyHeader(child, parent, false, now); err != nil {
-					t.Fatalf("HARNESS: accepted block %d view %d does not verify: %v", bi, ctx, err)
+					stats.Violation(t, part, fmt.Sprintf("C09/verdict-not-repeatable/ctx%d", ctx), fmt.Sprintf("block %d view %d was accepted, re-verifying it against the same parent fails: %v", bi, ctx, err), dump())
+					return
 				}
 				if ctx == sim.Zone {
 					// arithmetic re-derivations
@@ -411,6 +437,10 @@ func TestC09_Headers(t *testing.T) {
 				stats.Violation(t, part, "C09/order-unstable/restart", fmt.Sprintf("block %d: order %d/%v after restart, %d before", bi, o, err, orders[b.Zone().Hash()]), dump())
 				return
 			}
+			if e := n.Nodes[sim.Zone].Core.Slice().HeaderChain().TotalLogEntropy(b.Zone()); e.Cmp(entropies[b.Zone().Hash()]) != 0 {
+				stats.Violation(t, part, "C09/entropy-unstable/restart", fmt.Sprintf("block %d: accumulated entropy %v after restart, %v before", bi, e, entropies[b.Zone().Hash()]), dump())
+				return
+			}
 		}
 		var kl []string
 		for k := range seenDev {
@@ -418,6 +448,9 @@ func TestC09_Headers(t *testing.T) {
 			stats.Label(part, "dev_"+k)
 		}
 		sort.Strings(kl)
+		if withUncles > 0 {
+			stats.Label(part, "chain_with_workshares")
+		}
 		stats.Case(part, strings.Join(kl, ","), nDev > 0)
 		if nDev > 0 && stats.WantSample(part) {
 			stats.Sample(part, map[string]any{"blocks": len(a.Blocks), "deviations_evaluated": nDev, "sample": tail(devLog, 14)})
